@@ -17,6 +17,8 @@ pub struct FromMetaOptions {
     from_word: Option<Callable>,
     /// Override for the default [`FromMeta::from_none`] method.
     from_none: Option<Callable>,
+    /// The number of fields in the input, if it is a tuple struct.
+    tuple_len: Option<usize>,
 }
 
 impl FromMetaOptions {
@@ -25,6 +27,13 @@ impl FromMetaOptions {
             base: Core::start(di)?,
             from_word: None,
             from_none: None,
+            tuple_len: match di.data {
+                syn::Data::Struct(syn::DataStruct {
+                    fields: syn::Fields::Unnamed(ref fields),
+                    ..
+                }) => Some(fields.unnamed.len()),
+                _ => None,
+            },
         })
         .parse_attributes(&di.attrs)?
         .parse_body(&di.data)
@@ -97,6 +106,15 @@ impl ParseData for FromMetaOptions {
 
         match self.base.data {
             Data::Struct(ref data) => {
+                if self.tuple_len.map_or(false, |len| len != 1) {
+                    errors.push(
+                        Error::custom(
+                            "`FromMeta` can only be derived for tuple structs with exactly one field",
+                        )
+                        .with_span(&self.base.ident),
+                    );
+                }
+
                 if let Some(from_word) = &self.from_word {
                     if data.is_unit() {
                         errors.push(Error::custom("`from_word` cannot be used on unit structs because it conflicts with the generated impl").with_span(from_word));
@@ -106,6 +124,15 @@ impl ParseData for FromMetaOptions {
                 }
             }
             Data::Enum(ref data) => {
+                for variant in data.iter().filter(|v| v.is_unparseable_tuple()) {
+                    errors.push(
+                        Error::custom(
+                            "`FromMeta` can only be derived for tuple variants with exactly one field",
+                        )
+                        .with_span(&variant.ident),
+                    );
+                }
+
                 let word_variants: Vec<_> = data
                     .iter()
                     .filter_map(|variant| variant.word.as_ref())
